@@ -365,21 +365,7 @@ theorem denseA_eq' (np : NetProblem K) :
 /-- with distinct in-range column indices in every row (`RowsOK`) the matrix `project_equations`
     accumulates (`+=`) is the design matrix of the specification -/
 theorem denseA_eq (np : NetProblem K) (hrows : RowsOK (toProblem np)) :
-    toMatrix (toProblem np).m (toProblem np).n (denseA np) = (toProblem np).A := by
-  funext i j
-  show Dn.mget (denseA np) i.val j.val = Dn.mget (toProblem np).dense i.val j.val
-  have hi : i.val < np.m := i.isLt
-  have hj : j.val < np.n := j.isLt
-  unfold denseA
-  rw [mget_mmk, if_pos ⟨hi, hj⟩, mget_dense]
-  obtain ⟨hnd, hr⟩ := hrows i.val i.isLt
-  unfold rowSum
-  rw [← Array.foldl_toList]
-  show Dn.vget (List.foldl _ _ ((np.rows.getD i.val #[]).toList)) j.val = _
-  have hnd' : ((np.rows.getD i.val #[]).toList.map (·.1)).Nodup := hnd
-  have hr' : ∀ cv ∈ (np.rows.getD i.val #[]).toList, 1 ≤ cv.1 := fun cv hc => (hr cv hc).1
-  rw [rowSum_eq_rowDense np.n (np.rows.getD i.val #[]).toList hnd' hr']
-  rfl
+    toMatrix (toProblem np).m (toProblem np).n (denseA np) = (toProblem np).A := denseA_eq' np
 
 /-! ### `vyrovnani_()`: full solvers -/
 
